@@ -620,7 +620,9 @@ func inspect(cs *caseSpec, dir string, rd *refData, final, ranRemoval bool) (ins
 	}
 
 	// map B: everything when reported plotted (O1/O3), else what lies below the recorded checkpoint (O5)
-	reported := ins.Plotted || ins.Ready || keeperReady
+	// the keeper's plotter takes a progress figure of 100 as "plot complete" when a Plot() call returns
+	progressFull := ins.Progress >= 100
+	reported := ins.Plotted || ins.Ready || keeperReady || progressFull
 	limit := vol
 	if !reported {
 		limit = 0
@@ -662,6 +664,15 @@ func inspect(cs *caseSpec, dir string, rd *refData, final, ranRemoval bool) (ins
 		ins.FullCompare = reported
 	}
 	if diff > 0 {
+		if progressFull && !(ins.Plotted || ins.Ready || keeperReady) {
+			defer func() {
+				for i := range probs {
+					if probs[i].Extra != nil {
+						probs[i].Extra["reported_ready_by"] = fmt.Sprintf("progress figure %v only (the keeper's plotter reads progress >= 100 as complete)", ins.Progress)
+					}
+				}
+			}()
+		}
 		if keeperReady && !(ins.Plotted || ins.Ready) {
 			defer func() {
 				for i := range probs {
